@@ -247,6 +247,26 @@ def directed_nested_programs(rng):
     return out
 
 
+def directed_wildcard_programs(rng):
+    """one user condition taking three parameters, typing.Any as wildcard, in pairs whose wildcards cross in unequal
+    numbers (neither more specific: both holding is an ambiguity), pairs ordered slot by slot, and a method on the bound"""
+    one, two = [1, enc_val(1)], [1, enc_val(2)]
+    ANY = [0]
+    ints = [1, 2, 3, 7]
+    out = []
+    combos = [([ANY, one, one], [one, ANY, ANY]), ([one, ANY, ANY], [ANY, one, one]), ([ANY, ANY, one], [one, one, ANY]),
+              ([one, one, one], [one, ANY, one]), ([ANY, one, two], [one, ANY, ANY]), ([ANY, ANY, ANY], [one, ANY, ANY])]
+    for pa, pb in combos:
+        for fallback in (True, False):
+            utab = {"10": [enc_val(v) for v in ints if rng.random() < 0.7]}
+            defs = [{"id": 0, "pos": [[9, 10, [0, INT]] + pa], "npos_req": 1, "kw": [], "prio": 0},
+                    {"id": 1, "pos": [[9, 10, [0, INT]] + pb], "npos_req": 1, "kw": [], "prio": 0}]
+            if fallback:
+                defs.append({"id": 5, "pos": [[0, INT]], "npos_req": 1, "kw": [], "prio": 0})
+            out.append({"spec": [], "defs": defs, "utab": utab, "calls": [{"vals": [enc_val(v)]} for v in ints + ["a"]]})
+    return out
+
+
 def slot_args(vals):
     return [[[0, i], v] for i, v in enumerate(vals)]
 
@@ -321,6 +341,15 @@ def doc_le(w, ta, tb):
             return None
         if ba != bb and issubclass(C[ba[1]], C[bb[1]]):
             return True
+        if ta[0] == 9 and tb[0] == 9 and ta[1] == tb[1] and ba == bb and len(ta) == len(tb) and len(ta) > 3:
+            # the same parametrised condition: [0] is the typing.Any wildcard.  Where one generalises the other slot by
+            # slot the documentation is not relied on (None); where the wildcards cross, neither is more specific
+            pa, pb = ta[3:], tb[3:]
+            if any(x != y and x != [0] and y != [0] for x, y in zip(pa, pb)):
+                return False
+            a_gen = any(x == [0] and y != [0] for x, y in zip(pa, pb))
+            b_gen = any(y == [0] and x != [0] for x, y in zip(pa, pb))
+            return False if (a_gen and b_gen) else None
         return False       # same bound (or unrelated bounds): otherwise unordered
     return None
 
